@@ -160,11 +160,12 @@ CLAIMED = {
         'Threaded strategies run on real threads, repeated 2-8 times (schedules sampled); arrival orders are enumerated only at the design level.',
         '5/C03'),
     'C07': (
-        'Transcription: textbook definitions in TLA+ over exact rationals (ConfusionRates.tla, RankMetrics.tla, Stats.tla); TLC checks the laws tying them together over every input class of the bound and emits every expected value; each emitted case is one implementation test in every input encoding through the accumulator and the one-shot function API',
+        'Transcription: textbook definitions in TLA+ over exact rationals (ConfusionRates.tla, RankMetrics.tla, Stats.tla, PairStats.tla, TextFreq.tla, Signals.tla); TLC checks the laws tying them together over every input class of the bound and emits every expected value; each emitted case is one implementation test in every input encoding through the accumulator and the one-shot function API',
         'TLC checks ranges, complements, harmonic mean, class symmetry and MCC^2<=1 for all 256 count tuples (0..3)^4 (binary, micro, macro views), range / monotonicity in k / perfect-ranking AP / harmonic-mean laws for all 960 (relevant set, ranking) pairs over 4 symbols at k=1..4, '
         'and variance>=0, variance=0 iff constant, mean between min and max, histogram totals and split invariance for all streams of <=2 batches x <=2 values with NaN. Every emitted value is compared (relative 1e-9) with the real ConfusionMatrixAggFn in 7 encodings x 2 label alphabets '
         '(two-batch accumulation and one call), the per-metric functions, TopKRetrievalAggFn over 5 k-lists (sqrt / log2 applied by the harness), MeanAndVariance / Histogram / MinMaxAndCount and the rolling_stats functions; documented aliases must agree on the real values.',
-        'Not transcribed: text-frequency metrics, calibration histogram, Tjur R2, Pearson r, the signals (DESIGN.md section 6). The quick tier samples 90 matrices and 150 rankings.',
+        'PairStats.tla / TextFreq.tla add Pearson and reflective r, Tjur D, symmetric prediction difference, calibration histogram, cross-entropy inputs, top-k word n-grams and pattern frequency (RRegression, R2Tjur, R2TjurRelative, SymmetricPredictionDifference, CalibrationHistogram, TopKWordNGrams, PatternFrequency through add and merge). '
+        'Not decided: logarithms (supplied by the harness), samplers, the one-shot text functions (not importable in this tree) (DESIGN.md section 6). The quick tier samples 90 matrices, 150 rankings and 700 pair streams.',
         '5/C07'),
 }
 
